@@ -7,7 +7,7 @@
     GC timing and address-dependent behaviour cannot be exhibited by a Gallina model;
     they are sampled by replaying histories in separate processes (tools/propcfg.py). *)
 From Coq Require Import List String.
-From Arche Require Import Model.Base Model.World Model.Ops Gen.PkgFacts.
+From Arche Require Import Model.Base Model.World Model.Ops Gen.PkgFacts Proofs.RelRefine Proofs.SpecDet.
 
 Theorem C13_no_map_range : map_ranges = nil.
 Proof. reflexivity. Qed.
@@ -17,5 +17,18 @@ Theorem C13_step_deterministic : forall (w1 w2 : world) (ops : list op),
   (forall o, step (run w1 ops) o = step (run w2 ops) o).
 Proof. intros w1 w2 ops ->. split; reflexivity. Qed.
 
+(** (c) Stronger than (a): the observable behaviour does not even depend on the concrete
+    world (table order, capacities, retired tables, free lists, cache contents), only on the
+    abstract store and the entity pool: two worlds refining the same abstract state with
+    the same pool give the same outcomes, values and handles for every history of the
+    single-entity core. *)
+Theorem C13_behaviour_depends_on_abstract_state_only : forall ops w1 w2 A,
+  R w1 A -> R w2 A -> w_pool w1 = w_pool w2 -> w_tb w1 = w_tb w2 ->
+  det_run A (w_pool w1) (w_tb w1) ops ->
+  outcomes w1 ops = outcomes w2 ops /\
+  exists A', R (run w1 ops) A' /\ R (run w2 ops) A' /\ w_pool (run w1 ops) = w_pool (run w2 ops).
+Proof. exact same_spec_same_behaviour. Qed.
+
 Print Assumptions C13_no_map_range.
+Print Assumptions C13_behaviour_depends_on_abstract_state_only.
 Print Assumptions C13_step_deterministic.
